@@ -1,6 +1,7 @@
 import Jrpc.Gen.Facts
 import Jrpc.Gen.Funcs
 import Jrpc.Model.Wire
+import Jrpc.Tie.C02
 /-! # Tie obligations for C13 -/
 namespace Jrpc.Tie.C13
 open Jrpc.Gen
@@ -12,5 +13,29 @@ theorem one_parser :
 
 /-- single non-batch message bare, anything else an array -/
 theorem toJSON_single (n : Int) (b : Bool) : Funcs.toJSONSingle n b = (n == 1 && !b) := rfl
+
+private theorem fb_cond (u : UInt8) :
+    ((((u.toNat : Int)) != 91) && (((u.toNat : Int)) != 123)) = (u != 91 && u != 123) := by
+  have h1 : ((u.toNat : Int) != 91) = (u != 91) := by
+    have : ((u.toNat : Int) = 91) ↔ u = 91 := by
+      rw [← UInt8.toNat_inj]; simp; omega
+    simp only [bne]; congr 1; rw [Bool.eq_iff_iff]; simpa using this
+  have h2 : ((u.toNat : Int) != 123) = (u != 123) := by
+    have : ((u.toNat : Int) = 123) ↔ u = 123 := by
+      rw [← UInt8.toNat_inj]; simp; omega
+    simp only [bne]; congr 1; rw [Bool.eq_iff_iff]; simpa using this
+  rw [h1, h2]
+
+/-- `Client.marshalParams`, after `json.Marshal`: null → member omitted, array/object → sent, else refused -/
+theorem marshalParams_tail (b : List UInt8) :
+    Funcs.marshalParamsTail b (fun x => ((Jrpc.Json.firstByte x).toNat : Int)) = Jrpc.Wire.outParams b := by
+  unfold Funcs.marshalParamsTail Jrpc.Wire.outParams
+  rw [Jrpc.Tie.C02.isNull_matches]; simp only [fb_cond]
+
+/-- `Server.pushReq` applies the same policy to pushed notifications and callbacks -/
+theorem pushParams_tail (b : List UInt8) :
+    Funcs.pushParamsTail b (fun x => ((Jrpc.Json.firstByte x).toNat : Int)) = Jrpc.Wire.outParams b := by
+  unfold Funcs.pushParamsTail Jrpc.Wire.outParams
+  rw [Jrpc.Tie.C02.isNull_matches]; simp only [fb_cond]
 
 end Jrpc.Tie.C13
